@@ -245,6 +245,19 @@ CloneZombie ==
   /\ devs' = devs \cup {"F24b"}
   /\ UNCHANGED <<chanVars, aux>>
 
+\* Known finding F24 (all flavours with clonable handles): cloning a handle that was itself
+\* closed when its side has no live handle left revives that side inconsistently (the peers
+\* keep reporting Closed / Disconnected, buffered values reappear).  Nothing after that point
+\* in the history is judged.
+CloneRevive ==
+  /\ Is("clone") /\ Dev("F24")
+  /\ \/ R.h \in DOMAIN tx /\ tx[R.h] = "closed" /\ LiveS = {}
+     \/ R.h \in DOMAIN rx /\ rx[R.h] = "closed" /\ LiveR = {}
+  /\ PrintT(<<"DEV", "F24">>)
+  /\ l' = NextNew(l)
+  /\ devs' = devs \cup {"F24"}
+  /\ UNCHANGED <<chanVars, aux>>
+
 \* to_sync / to_async: the same handle in another flavour.
 Conv ==
   /\ Is("conv")
@@ -283,7 +296,12 @@ Hoarded(o) == /\ Dev("F12") /\ IsSend(o) /\ pend[o].lin = "" /\ Bounded /\ aux.h
               /\ Len(buf) + aux.hoard >= cfg.cap
 EnabledQ(o) == Enabled(o) /\ ~Hoarded(o)
 Ready(o) == pend[o].lin # "" \/ EnabledQ(o)
-NoStall(S) == (\E o \in FutSide(S) : Ready(o)) => (\E o \in FutSide(S) : pend[o].woken)
+\* C06: "an executor that polls only woken tasks never stalls while progress is possible":
+\* if some polled-and-pending future could proceed, SOME pending future (of either side: the
+\* woken task runs next and passes the baton on) has been woken since its last poll.
+\* With S given, only futures of that side are looked at for "could proceed".
+AllFuts == {o \in DOMAIN pend : pend[o].fut /\ pend[o].started}
+NoStall(S) == (\E o \in FutSide(S) : Ready(o)) => (\E o \in AllFuts : pend[o].woken)
 
 \* Known findings F6 (mpsc bounded) / F7 (mpmc bounded): exactly one pending
 \* sender is woken per freed slot; if that future is dropped instead of polled the
@@ -374,7 +392,7 @@ WakeStale == Is("wake_stale") /\ UNCHANGED <<chanVars, devs, aux>> /\ Next1
 Next ==
   \/ LinStep
   \/ WakeStale
-  \/ New \/ PollPending \/ Clone \/ CloneZombie \/ Quiesce \/ Hung \/ End \/ StrayDrop
+  \/ New \/ PollPending \/ Clone \/ CloneZombie \/ CloneRevive \/ Quiesce \/ Hung \/ End \/ StrayDrop
   \/ Wake \/ Cancel
   \/ (Call \/ Ret \/ Close \/ HDrop \/ Conv \/ Obs) /\ UNCHANGED <<devs, aux>>
 
